@@ -1205,7 +1205,7 @@ class FormatField(Construct):
                 return "b%s" % (8*self.length, )
             else:
                 return "%s%s%s" % ("s" if signed else "u", self.length, "le" if swapped else "be", )
-        if format in "fd":
+        if format in "efd":
             assert not bitwise
             return "f%s%s" % (self.length, "le" if swapped else "be", )
 
